@@ -21,6 +21,9 @@ Definition eDataNotEnough : N := 3.  (* errDataNotEnough *)
 Definition eFuel : N := 9.           (* model only: demux loop out of fuel *)
 (* injected transport faults are numbered from 10 *)
 
+(* linear list reversal (the standard library's [rev] is quadratic); [frev l = rev l] *)
+Definition frev {A} (l : list A) : list A := rev_append l [].
+
 (* ---- checked accessors ---- *)
 Definition idx (site : N) (b : bytes) (i : nat) : res N :=
   match nth_error b i with Some x => Ok x | None => Panic site end.
@@ -46,7 +49,7 @@ Definition stream := list seg.
    Linear: a segment shorter than the demand is consumed whole (its length is computed once),
    [take] only ever walks the bytes it returns. *)
 Fixpoint copy_n (n : N) (s : stream) (acc : list bytes) : res (bytes * stream) :=
-  if n =? 0 then Ok (concat (rev acc), s) else
+  if n =? 0 then Ok (concat (frev acc), s) else
   match s with
   | [] => Err eEOF
   | Fault e :: _ => Err e
@@ -54,7 +57,7 @@ Fixpoint copy_n (n : N) (s : stream) (acc : list bytes) : res (bytes * stream) :
       let l := lenN b in
       if l <? n then copy_n (n - l) s' (b :: acc)
       else match takeN n b with
-           | Some (a, r) => Ok (concat (rev (a :: acc)), Data r :: s')
+           | Some (a, r) => Ok (concat (frev (a :: acc)), Data r :: s')
            | None => Panic 99            (* unreachable: n <= lenN b *)
            end
   end.
@@ -70,18 +73,23 @@ Fixpoint flat (s : stream) : bytes * N :=
 (* ---- Demuxer ---- *)
 Definition sigFLV : bytes := [70; 76; 86].        (* 'F' 'L' 'V' *)
 
+(* every demuxer method: h := &bytes.Buffer{}; io.CopyN(h, v.r, n); p := h.Bytes(); parse p *)
+Definition read_via {A} (n : N) (parse : bytes -> res A) (s : stream) : res (A * stream) :=
+  let* (p, s') := copy_n n s [] in
+  let* v := parse p in
+  Ok (v, s').
+
 (* ReadHeader: version, hasVideo, hasAudio *)
-Definition read_header (s : stream) : res ((N * bool * bool) * stream) :=
-  let* (p, s') := copy_n 13 s [] in
+Definition parse_header (p : bytes) : res (N * bool * bool) :=
   let* sg := slice_to 1 p 3 in
   if negb (bytes_eqb sigFLV sg) then Err eSignature else
   let* ver := idx 2 p 3 in
   let* fl := idx 3 p 4 in
-  Ok ((ver, fl mod 2 =? 1, (fl / 4) mod 2 =? 1), s').
+  Ok (ver, fl mod 2 =? 1, (fl / 4) mod 2 =? 1).
+Definition read_header : stream -> res ((N * bool * bool) * stream) := read_via 13 parse_header.
 
 (* ReadTagHeader: tagType, tagSize, timestamp *)
-Definition read_tag_header (s : stream) : res ((N * N * N) * stream) :=
-  let* (p, s') := copy_n 11 s [] in
+Definition parse_tag_header (p : bytes) : res (N * N * N) :=
   let* p0 := idx 4 p 0 in
   let* p1 := idx 5 p 1 in
   let* p2 := idx 6 p 2 in
@@ -90,19 +98,19 @@ Definition read_tag_header (s : stream) : res ((N * N * N) * stream) :=
   let* p5 := idx 9 p 5 in
   let* p6 := idx 10 p 6 in
   let* p7 := idx 11 p 7 in
-  Ok ((p0, ube3 p1 p2 p3, ube4 p7 p4 p5 p6), s').
+  Ok (p0, ube3 p1 p2 p3, ube4 p7 p4 p5 p6).
+Definition read_tag_header : stream -> res ((N * N * N) * stream) := read_via 11 parse_tag_header.
 
 (* ReadTag(tagSize uint32): io.CopyN(h, r, int64(tagSize+4)) -- the addition is a uint32
    addition and wraps; then tag = p[0 : len(p)-4] *)
-Definition read_tag (n : N) (s : stream) : res (bytes * stream) :=
-  let m := u32 (n + 4) in
-  let* (p, s') := copy_n m s [] in
+Definition strip_pts (p : bytes) : res bytes :=
   let l := lenN p in
   if l <? 4 then Panic 12 else
   match takeN (l - 4) p with
-  | Some (a, _) => Ok (a, s')
+  | Some (a, _) => Ok a
   | None => Panic 13
   end.
+Definition read_tag (n : N) : stream -> res (bytes * stream) := read_via (u32 (n + 4)) strip_pts.
 
 Record tag := mk_tag { t_type : N; t_ts : N; t_body : bytes }.
 
@@ -115,11 +123,11 @@ Fixpoint read_tags (fuel : nat) (s : stream) (acc : list tag) : res (list tag * 
   | O => Err eFuel
   | S f =>
       match read_tag_header s with
-      | Err e => Ok (rev acc, (0, e))
+      | Err e => Ok (frev acc, (0, e))
       | Panic x => Panic x
       | Ok ((ty, sz, ts), s1) =>
           match read_tag sz s1 with
-          | Err e => Ok (rev acc, (1, e))
+          | Err e => Ok (frev acc, (1, e))
           | Panic x => Panic x
           | Ok (b, s2) => read_tags f s2 (mk_tag ty ts b :: acc)
           end
@@ -319,11 +327,11 @@ Definition next_size (rest all : list N) : N * list N :=
 
 Fixpoint split_go (b : bytes) (k : N) (rest all : list N) (cur : bytes) (acc : stream) : stream :=
   match b with
-  | [] => rev (match cur with [] => acc | _ => Data (rev cur) :: acc end)
+  | [] => frev (match cur with [] => acc | _ => Data (frev cur) :: acc end)
   | x :: t =>
       if k <=? 1 then
         let (k', rest') := next_size rest all in
-        split_go t k' rest' all [] (Data (rev (x :: cur)) :: acc)
+        split_go t k' rest' all [] (Data (frev (x :: cur)) :: acc)
       else split_go t (k - 1) rest all (x :: cur) acc
   end.
 
